@@ -392,6 +392,10 @@ func (m *ldbManager) Pop() error {
 		return err
 	}
 
+	// cached undo overlays were computed against the branch which is being abandoned
+	m.l1Cache.Purge()
+	m.l2Cache.Purge()
+
 	return nil
 }
 func (m *ldbManager) Stop() error {
